@@ -114,7 +114,7 @@ func init() {
 				sysq = append(sysq, q)
 			}
 			return &harness.Plan{
-				N:      size(tier, 150000, 2000000),
+				N:      size(tier, 150000, 8000000),
 				Setup:  func(c *harness.Ctx) { hooksOn() },
 				Run:    func(c *harness.Ctx, k int) { runC10(c, sysq) },
 				Finish: reportHooks,
